@@ -180,7 +180,7 @@ func TestC12(t *testing.T) {
 					outOfOrder = true
 				}
 				tx := outstanding[k]
-				code := rapid.SampledFrom([]int{100, 180, 183, 200, 202, 404, 486, 503, 603}).Draw(rt, "status")
+				code := gTxStatus(rt, "status")
 				if tx.Prov >= 3 && code < 200 {
 					code = 200
 				}
